@@ -11,7 +11,9 @@ Judge(e) ==
      IN V(QueryVerdict(e), e.k = "ok" => (e.ret = <<m[1], m[2]>> /\ FlattenSeq(e.calls) = ArrivedAs(m[3], e.enc) /\ e.consumed = m[4]))
   ELSE IF e.op = "vdiff" THEN
      LET m == ImplDiff(e.top0, e.last0, e.rows, e.nested)
-     IN V(DiffVerdict(e), e.k = "ok" => (e.top1 = m[1] /\ e.ret = m[2] /\ e.last1 = m[3] /\ e.queries = m[4]))
+     \* e.free = 1: the nested call was injected at an arbitrary line of the outer call (not during a read); the
+     \* L1 verdict is the same, the step-by-step model of the loop is not compared
+     IN V(DiffVerdict(e), (e.k = "ok" /\ e.free = 0) => (e.top1 = m[1] /\ e.ret = m[2] /\ e.last1 = m[3] /\ e.queries = m[4]))
   ELSE <<"fail", "UnknownOp", "drift">>
 
 Init == i \in 1..Len(Events) /\ v = <<"todo">>
